@@ -400,10 +400,52 @@ func checkCanonicalParse(p *Program, r *Result, parse, rs, ivs, dec *ssa.Functio
 				}
 			}
 		}
+		if !okEmpty {
+			// the same as one expression: `len(s) > 0 && ...`: every way to a result other than
+			// the constant false stands under len(s) >= 1
+			okEmpty = len(returnsOf(ivs)) > 0
+			for _, ret := range returnsOf(ivs) {
+				nonEmptyOrFalse := func(v ssa.Value, facts []Atom) bool {
+					if c, isC := v.(*ssa.Const); isC && c.Value != nil && c.Value.ExactString() == "false" {
+						return true
+					}
+					_, ok := hasFact(facts, "len(P1) >= 1")
+					_, ok2 := hasFact(facts, "len(P1) != 0")
+					return ok || ok2
+				}
+				if ph, isPhi := ret.Results[0].(*ssa.Phi); isPhi && ph.Block() == ret.Block() {
+					for i, e := range ph.Edges {
+						pr := ph.Block().Preds[i]
+						facts := itb.FactsAt(pr)
+						for k, sc := range pr.Succs {
+							if sc == ph.Block() {
+								if _, isIf := pr.Instrs[len(pr.Instrs)-1].(*ssa.If); isIf {
+									facts = itb.FactsOnEdge(pr, k)
+								}
+							}
+						}
+						okEmpty = okEmpty && nonEmptyOrFalse(e, facts)
+					}
+				} else {
+					okEmpty = okEmpty && nonEmptyOrFalse(ret.Results[0], itb.FactsAt(ret.Block()))
+				}
+			}
+		}
 		r.Check(okEmpty, ivs.String(), "empty", "", "empty string is invalid", "the empty string is accepted as an argument")
 		okRange := false
 		decidedByEval := false
-		if ep, _ := p.elemPredicate(ivs, func(v ssa.Value) bool { return v == ssa.Value(ivs.Params[0]) }); ep != nil {
+		if ep := p.elemPredicateCall(ivs, func(v ssa.Value) bool { return v == ssa.Value(ivs.Params[0]) }); ep != nil {
+			// the same through a library call that applies a predicate function to every rune
+			eq, ok, _ := ep.Equals(func(c int64) bool { return c >= 33 && c <= 126 }, []int64{33, 126})
+			if ok {
+				decidedByEval = true
+				okRange = eq
+				for _, ret := range returnsOf(ivs) {
+					okRange = okRange && allPassOrFalse(ret.Results[0], ep.Call, 0)
+				}
+			}
+		}
+		if ep, _ := p.elemPredicate(ivs, func(v ssa.Value) bool { return v == ssa.Value(ivs.Params[0]) }); ep != nil && !decidedByEval {
 			// E10: the set of element values the loop carries on with, whatever the shape of the test
 			eq, ok, _ := ep.Equals(func(c int64) bool { return c >= 33 && c <= 126 }, []int64{33, 126})
 			if ok {
